@@ -171,8 +171,21 @@ class Evo:
 
     def explorer(self, unroll: int = 1, **kw):
         heavy = {f for f in (self.node_fn, self.numbr_fn) if f is not None}
-        return self.ctx.explorer(inline=lambda f, st: f.cls is self.cls and f not in heavy, unroll=unroll,
-                                 max_paths=30000, opaque=heavy, **kw)
+        ex = self.ctx.explorer(inline=lambda f, st: f.cls is self.cls and f not in heavy, unroll=unroll,
+                               max_paths=30000, opaque=heavy, **kw)
+        # lazily cached derived attributes: the rules analyse the cold computation (caches empty on entry); that the
+        # warm answer is the same is the coherence obligation reported by caches.report_incoherent
+        from . import caches
+        orig = ex.explore
+        ctx_, cls_ = self.ctx, self.cls
+
+        def explore(fn, args=None, heap=None):
+            h = dict(caches.cold_heap(ctx_, cls_, fn)) if fn.cls is cls_ else {}
+            if heap:
+                h.update(heap)
+            return orig(fn, args=args, heap=h or None)
+        ex.explore = explore
+        return ex
 
     def density_field(self) -> str:
         """Attribute that bounds the level loop of the forward descent."""
@@ -215,6 +228,109 @@ def evo_of(ctx: Ctx) -> Evo:
 # ----------------------------------------------------------------------------
 # rules used by more than one property
 # ----------------------------------------------------------------------------
+VALUE_PRESERVING_CALLS = {'asarray', 'array', 'asfarray', 'copy', 'ascontiguousarray', 'asanyarray', 'double', 'float64'}
+
+
+def _full_slice(k, selfk, nval=None) -> bool:
+    """('slice', lo, hi, step) that covers the whole N-vector: [:], [:N], [0:N] (nval: the value N is known to
+    have on the explored path, if any)."""
+    if not (isinstance(k, tuple) and len(k) == 4 and k[0] == 'slice'):
+        return False
+    lo, hi, st = k[1], k[2], k[3]
+    none = ('const', 'None')
+    zero = RF.const(0).key()
+    n_attr = ('attr', selfk, 'numberOfFloatVariables')
+    ok_lo = lo == none or lo == zero or lo == ('const', '0')
+    ok_hi = hi == none or (isinstance(hi, tuple) and C.strip_versions(hi) == n_attr) or \
+        (nval is not None and hi == nval.key())
+    return ok_lo and ok_hi and st == none
+
+
+def subst_top(rf: RF, mapping) -> RF:
+    """Substitute atoms that occur as factors of the polynomial itself (not inside other atoms)."""
+    def poly(p) -> RF:
+        tot = RF.const(0)
+        for m, c in p.items():
+            t = RF.const(c)
+            for a, ex_ in m:
+                r = mapping.get(a)
+                t = t * (r if isinstance(r, RF) else RF.atom(a)).ipow(ex_)
+            tot = tot + t
+        return tot
+    return poly(rf.num) / poly(rf.den)
+
+
+def scratch_element(p: Path, selfv, attr_name: str, idx: int = 0, nval=None, with_bases: bool = False):
+    """Element idx of the working vector self.<attr_name> at the end of path p, looking through whole-vector
+    (vectorised) stores: (a*b + c)[i] = a[i]*b[i] + c[i] for N-vectors a, b, c.  The vector is followed as an
+    object: after `self.v = np.array(y)` stores through either name hit the same array."""
+    selfk = key_of(selfv)
+    base = ('attr', selfk, attr_name)
+    bases = {base}
+    idxk = RF.const(idx).key()
+    elem = None
+
+    def elementwise(v: RF) -> RF:
+        mapping = {}
+        for a in v.atoms():
+            if not (isinstance(a, tuple) and a):
+                continue
+            if C.strip_versions(a) in bases:
+                mapping[a] = elem if isinstance(elem, RF) else RF.atom(('sub', a, idxk, 0))
+            elif a[0] in ('attr', 'var', 'call'):
+                mapping[a] = RF.atom(('sub', a, idxk, 0))
+        return subst_top(v, mapping)
+    for ev in p.events:
+        if ev.kind != 'store':
+            continue
+        whole = None
+        if ev.d['tkind'] == 'sub' and isinstance(ev.d['base'], RF):
+            b = ev.d['base'].single_atom()
+            if isinstance(b, tuple) and C.strip_versions(b) in bases:
+                fk = key_of(ev.d['field']) if isinstance(ev.d['field'], RF) else ev.d['field']
+                if fk == idxk:
+                    elem = ev.d['value']
+                    continue
+                if _full_slice(fk, selfk, nval):
+                    whole = ev.d['value']
+        elif ev.d['tkind'] == 'attr' and ev.d['field'] == attr_name and key_of(ev.d['base']) == selfk:
+            whole = ev.d['value']
+            if isinstance(whole, RF):
+                wa = whole.single_atom()
+                if isinstance(wa, tuple) and wa and wa[0] == 'call':
+                    # the attribute now names the array this call produced
+                    v0 = normalise_arrays(whole, selfk, nval)
+                    elem = elementwise(v0) if isinstance(v0, RF) else None
+                    bases = {base, C.strip_versions(wa)}
+                    continue
+        if whole is None or not isinstance(whole, RF):
+            continue
+        elem = elementwise(normalise_arrays(whole, selfk, nval))
+    return (elem, bases) if with_bases else elem
+
+
+def normalise_arrays(v, selfk, nval=None):
+    """Accepted idioms of whole-vector code: a[:N] / a[:] of an N-vector is a; np.asarray(a[, dtype]) /
+    np.array(a) / np.copy(a) have the values of a.  (Lengths of the bound vectors equal N: C18 decides that for the
+    shipped problems.)"""
+    if not isinstance(v, RF):
+        return v
+    for _ in range(6):
+        mapping = {}
+        for a in C.atoms_deep(v):
+            if not isinstance(a, tuple) or not a:
+                continue
+            if a[0] == 'sub' and len(a) == 4 and _full_slice(a[2], selfk, nval):
+                mapping[a] = a[1]
+            elif a[0] == 'call' and len(a) == 4 and isinstance(a[1], str) and \
+                    a[1].split('.')[-1] in VALUE_PRESERVING_CALLS and isinstance(a[2], tuple) and len(a[2]) >= 1:
+                mapping[a] = a[2][0]
+        if not mapping:
+            break
+        v = C.subst_rf(v, mapping)
+    return v
+
+
 def rule_affine(ctx: Ctx, rid: str, which=('P2D', 'D2P'), scope=None):
     """cube -> box map is y*(U-L) + (U+L)/2 per coordinate; box -> cube is its inverse.  Per-coordinate loops
     and whole-array (vectorised) forms are both accepted; attributes cached by the constructor are expanded only
@@ -224,6 +340,12 @@ def rule_affine(ctx: Ctx, rid: str, which=('P2D', 'D2P'), scope=None):
     n = 0
     out = {}
     half = RF.const(Fraction(1, 2))
+    # the map is analysed on its cold paths; a lazily cached coefficient must be coherent for that to be the answer
+    from . import caches
+    roots = ([e.get_image] if 'P2D' in which else []) + ([e.get_inverse, e.get_pre] if 'D2P' in which else [])
+    caches.report_incoherent(ctx, rid, e.cls, roots,
+                             'the coordinate map then uses coefficients of the previous bounds whenever an earlier '
+                             'query had filled the cache')
     for w in which:
         fn = e.p2d if w == 'P2D' else e.d2p
         selfv = var(fn.param_names[0])
@@ -253,9 +375,15 @@ def rule_affine(ctx: Ctx, rid: str, which=('P2D', 'D2P'), scope=None):
                 cands -= skip
             else:
                 # vectorised: the array bound to an attribute of self, or returned
-                sts = [s for s in p.stores() if s.d['tkind'] == 'attr' and s.depth == 0 and
-                       key_of(s.d['base']) == key_of(selfv)]
+                sts = [s for s in p.stores() if s.depth == 0 and
+                       ((s.d['tkind'] == 'attr' and key_of(s.d['base']) == key_of(selfv)) or
+                        # self.<scratch>[:N] = ... : a whole-vector store
+                        (s.d['tkind'] == 'sub' and _full_slice(key_of(s.d['field']) if isinstance(s.d['field'], RF)
+                                                               else s.d['field'], key_of(selfv)) and
+                         isinstance(s.d['base'], RF) and isinstance(s.d['base'].single_atom(), tuple) and
+                         s.d['base'].single_atom()[:2] == ('attr', key_of(selfv))))]
                 got = sts[-1].d['value'] if sts else p.value
+                got = normalise_arrays(got, key_of(selfv))
                 node = sts[-1].node if sts else fn.node
                 U, L = Uarr, Larr
                 i = None
